@@ -33,6 +33,9 @@
 #ifdef WITH_SYMENGINE_THREAD_SAFE
 #include <atomic>
 #endif
+#if defined(SYMENGINE_VERIF)
+#include <atomic>
+#endif
 
 #include <symengine/dict.h>
 
@@ -106,6 +109,27 @@ private:
 #else
     mutable hash_t hash_; // This holds the hash value
 #endif // WITH_SYMENGINE_THREAD_SAFE
+#if defined(SYMENGINE_VERIF)
+public:
+    // Verification hook H2: number of live Basic objects in the process.
+    static std::atomic<long> &verif_live_basic()
+    {
+        static std::atomic<long> n{0};
+        return n;
+    }
+
+private:
+    struct VerifLiveCounter {
+        VerifLiveCounter()
+        {
+            ++Basic::verif_live_basic();
+        }
+        ~VerifLiveCounter()
+        {
+            --Basic::verif_live_basic();
+        }
+    } verif_live_counter_;
+#endif // SYMENGINE_VERIF
 public:
 #ifdef WITH_SYMENGINE_VIRTUAL_TYPEID
     virtual TypeID get_type_code() const = 0;
